@@ -310,6 +310,13 @@ def run_C07(em, impl, tabs, rng, thorough):
         for what, pl in gen.nested_payloads(rng, inner):
             pays.append(pl)
             em.count("nested." + what.replace(" ", "_"))
+    # frames whose checksum looks like something else (ends in CR LF, begins with the preamble, ...)
+    for base in (pays[0], bytes([0x3e, 0xd0]) + bytes(rng.getrandbits(8) for _ in range(17)), bytes([0xfa, 0x10]) + bytes(rng.getrandbits(8) for _ in range(38))):
+        if len(base) >= 4:
+            for what, pl in gen.trailer_lookalike_payloads(base):
+                if impl.construct(pl, 1)[0] == 0:
+                    pays.append(pl)
+                    em.count("trailer." + what.replace(" ", "_"))
     for p in pays:
         add_case(em, impl, p, 1, FULL, "serialize/parse of a %d-byte payload" % len(p))
         tag, m = impl.construct(p, 1)
@@ -676,7 +683,11 @@ def run_C14(em, impl, tabs, rng, thorough):
                     m2 = mk(m)
                 except Exception:  # noqa  (copying is not promised; an object that cannot be copied cannot be mutated through a copy)
                     continue
-                before = (dict(m2.__dict__), str(m2), m2.serialize(), m2.identity, m2.payload)
+                try:
+                    before = (dict(m2.__dict__), str(m2), m2.serialize(), m2.identity, m2.payload)
+                except Exception as e:  # noqa
+                    em.violation("C14: a message obtained by %s cannot be observed (%r) after rejected assignments to the original" % (how, e), {"payload": p.hex(), "copy": how}, {})
+                    continue
                 for nme in (list(m2.__dict__)[:3] + ["DF002", "new_attribute", "_payload"]):
                     try:
                         setattr(m2, nme, 1)
